@@ -142,6 +142,41 @@ def search(ck, drv, tier, seed):
                             if not torch.allclose(r[1][1], lp2, atol=2e-2 if "embedding" in name else 2e-3):
                                 ck.finding("pairing:returned-log_prob-is-not-log_prob-of-sample:%s" % name,
                                            "max diff %g" % float((r[1][1] - lp2).abs().max()), case)
+    # ---- class-conditional use: the context is a 1-D tensor of integer labels (no feature axis), mapped to parameters by the encoder
+    class EncLabel(nn.Module):
+        def __init__(self, D):
+            super().__init__()
+            self.D = D
+
+        def forward(self, c):
+            cf = c.to(torch.float32).reshape(-1, 1)
+            return torch.cat([1000.0 * cf.expand(-1, self.D), torch.zeros(cf.shape[0], self.D)], 1)
+    for D in (1, 2):
+        for name, d in (("ConditionalDiagonalNormal(label encoder)", ConditionalDiagonalNormal([D], context_encoder=EncLabel(D))),
+                        ("Flow(Affine, ConditionalDiagonalNormal(label encoder))", Flow(PointwiseAffineTransform(0.25, 1.0), ConditionalDiagonalNormal([D], context_encoder=EncLabel(D))))):
+            for k in (2, 3):
+                for n in (2, 5):
+                    labels = torch.arange(1, k + 1)
+                    ck.case(("label-rows", name, D, k, n), nontrivial=True)
+                    case = {"search": "label-context", "object": name, "D": D, "rows": k, "n": n, "seed": seed}
+                    torch.manual_seed(seed + k + n)
+                    r = attempt(d.sample_and_log_prob, n, labels)
+                    if r[0] != "ok":
+                        ck.count("label-context-rejected")
+                        continue
+                    smp, lp = r[1]
+                    if list(smp.shape) != [k, n, D]:
+                        ck.finding("base-rows:shape:%s" % name, "1-D label context -> %s" % list(smp.shape), case)
+                        continue
+                    ids = torch.round((smp - (0.25 if "Affine" in name else 0.0)) / 1000.0)
+                    want = labels.to(torch.float32).reshape(k, 1, 1).expand(k, n, D)
+                    lp2 = attempt(lambda: d.log_prob(smp.reshape(k * n, D), labels.repeat_interleave(n)).reshape(k, n))
+                    if not torch.equal(ids, want):
+                        ck.finding("pairing:sample-drawn-under-wrong-context-row:%s" % name,
+                                   "1-D label context %s, n %d: blocks carry labels %s" % (labels.tolist(), n, ids[..., 0].tolist()), case)
+                    elif lp2[0] == "ok" and not torch.allclose(lp, lp2[1], atol=2e-3):
+                        ck.finding("pairing:returned-log_prob-is-not-log_prob-of-sample:%s" % name,
+                                   "1-D label context: max diff %g" % float((lp - lp2[1]).abs().max()), case)
     if drv is not None:
         ck.correspondence("merge / repeat_rows / invert / split pairing vs Flow.sample_and_log_prob on recorded noise", ncorr, mm)
     # ---- library flows: log_prob(sample) = returned log_prob, per row; sample(n, ctx) shapes
